@@ -242,6 +242,15 @@ def run(ctx):
                    True, "table")
     except Exception as e:
         ctx.oblige("T-loops: loops of tokenize.cpp classified", False, "table", str(e))
+    try:
+        from translators import t_walks
+        tw = t_walks.regenerate(common.REPO, common.ROOT, common.LEAN_DIR, common.write_if_changed)
+        import collections
+        ctx.oblige("T-walks: %d chunk-list walks of src/ classified %s" % (len(tw["walks"]), dict(collections.Counter(w["class"] for w in tw["walks"]))),
+                   True, "table")
+        ctx.cov["chunk_walks"] = dict(collections.Counter(w["class"] for w in tw["walks"]))
+    except Exception as e:
+        ctx.oblige("T-walks: chunk-list walks classified", False, "table", str(e))
     ctx.lean_obligations()
 
     # the quick tier explores a FIXED universe (seed-independent) plus a small seed-dependent part, so that the defects of the
